@@ -162,15 +162,45 @@ def collect(F, fn_path, tag="", inline_pred=None, facts_hook=None, loop_k=1):
     iv = Intervals(F, expand)
     sites = {}      # (site_fn, line, kind, desc) -> Ob aggregated over paths (open wins over discharged)
 
-    def note(kind, desc, site, status, why, p):
+    def note(kind, desc, site, status, why, p, detail=None):
         k = (site[0], site[1], kind, desc)
         o = sites.get(k)
         if o is None:
-            sites[k] = Ob(kind, site[0], desc, site, status, why, p)
+            o = sites[k] = Ob(kind, site[0], desc, site, status, why, p)
+            o.detail = detail
         else:
             rank = {"discharged": 0, "open": 1, "fails": 2}
             if rank[status] > rank[o.status]:
                 o.status, o.why, o.path = status, why, p
+                if detail:
+                    o.detail = detail
+
+    def producer(v, depth=0):
+        """What produced a value, in words that do not depend on positions: callee name, field name, variant."""
+        v = expand(v)
+        if v[0] == "c":
+            return str(v[1])
+        if v[0] == "agg":
+            return v[2]
+        if v[0] in ("ref",):
+            return "&"
+        if v[0] != "sym" or depth > 3:
+            return v[0]
+        t = v[1]
+        if t[0] == "call":
+            return t[1].split("::")[-1].split("<")[0]
+        if t[0] == "mut":
+            return t[1][0].split("::")[-1]
+        if t[0] in ("field", "cast", "not", "len", "deref"):
+            return producer(("sym", t[1]) if not (isinstance(t[1], tuple) and t[1] and t[1][0] in ("sym", "c", "agg", "ref")) else t[1], depth + 1)
+        if t[0] == "init":
+            names = [str(el[2]) for el in t[2] if el[0] == "f" and len(el) > 2 and el[2] is not None]
+            return names[-1] if names else (t[1][1] if t[1][0] == "arg" else t[1][0])
+        if t[0] == "arg":
+            return str(t[1])
+        if t[0] == "bin":
+            return t[1].replace("WithOverflow", "")
+        return t[0]
 
     for p in ps:
         cur = {"idx": 0, "snap": None, "facts": None}
@@ -206,7 +236,8 @@ def collect(F, fn_path, tag="", inline_pred=None, facts_hook=None, loop_k=1):
                     continue
                 op, cv, ops, tys = e[4]
                 ok, why = discharge_assert(kind, op, ops, tys, lin, iv, get_facts)
-                note("assert", "%s%s" % (kind, (":" + op) if op else ""), site, "discharged" if ok else "open", why, p)
+                note("assert", "%s%s" % (kind, (":" + op) if op else ""), site, "discharged" if ok else "open", why, p,
+                     detail=",".join(producer(x) for x in ops) if not ok else None)
             elif e[0] == "unwrap":
                 status = e[4]
                 nm = e[1].split("::")[-1]
@@ -226,7 +257,8 @@ def collect(F, fn_path, tag="", inline_pred=None, facts_hook=None, loop_k=1):
                             note("unwrap", "from_u32", e[3], "discharged", "A-RL (assumption): length of parsed/encoded parts fits a variable byte integer", p)
                         continue
                 note("unwrap", nm, e[3], status if status != "open" else "open",
-                     "value known Some/Ok on the path" if status == "discharged" else "unwrap of a value not known to be Some/Ok", p)
+                     "value known Some/Ok on the path" if status == "discharged" else "unwrap of a value not known to be Some/Ok", p,
+                     detail=producer(e[2]) if status != "discharged" else None)
             elif e[0] == "call":
                 callee = e[1]
                 if EXT_INDEX.search(callee):
@@ -251,11 +283,20 @@ def collect(F, fn_path, tag="", inline_pred=None, facts_hook=None, loop_k=1):
     # stable keys: ordinal among identical (fn, kind, desc) in source order
     obs = sorted(sites.values(), key=lambda o: (o.fn, o.site[1] or 0, o.kind, o.desc))
     counts = {}
+    counts_old = {}
     for o in obs:
-        base = (o.fn, o.kind, o.desc)
+        # discharged sites need no stable identity beyond (fn, kind, desc); open ones are identified by what produced the
+        # operand, so that adding or removing an unrelated site in the same function does not renumber them
+        d = getattr(o, "detail", None)
+        desc = o.desc + ("(%s)" % d if (d and o.status != "discharged") else "")
+        base = (o.fn, o.kind, desc, o.status == "discharged")
         n = counts.get(base, 0)
         counts[base] = n + 1
-        o.key = "%s|%s|%s|#%d" % (short_fn(o.fn), o.kind, o.desc, n)
+        bo = (o.fn, o.kind, o.desc)
+        no = counts_old.get(bo, 0)
+        counts_old[bo] = no + 1
+        o.key_old = "%s|%s|%s|#%d" % (short_fn(o.fn), o.kind, o.desc, no)
+        o.key = "%s|%s|%s|#%d" % (short_fn(o.fn), o.kind, desc, n) if o.status != "discharged" else o.key_old
     return obs, {"paths": len(ps)}
 
 
